@@ -324,6 +324,11 @@ pub fn f_xy() -> Vec<f64> {
         f64::INFINITY,
         f64::NEG_INFINITY,
         NO_DATA,
+        // ordinary but awkward finite values: 2^53 (integers stop being exact),
+        // a negative integer of large magnitude, a value with a full mantissa
+        9007199254740992.0,
+        -4503599627370497.0,
+        123456.78901234567,
     ]
 }
 pub fn nans() -> Vec<f64> {
